@@ -22,9 +22,10 @@ def beh(bs, ms=('n',), ds=((),)):
   return frozenset((b, m, tuple(d)) for b in bs for m in ms for d in ds)
 
 
-def phase(name, behs, o=None, plugs=(), ndiag=0, mk='none'):
+def phase(name, behs, o=None, plugs=(), ndiag=0, mk='none', mon=False):
+  """mon: the body is wrapped with openhtf.core.monitors.monitors() (transparent for the model)"""
   return dict(k='phase', name=name, opts=o or dict(NOOPTS), beh=behs,
-              plugs=frozenset(plugs), ndiag=ndiag, mk=mk)
+              plugs=frozenset(plugs), ndiag=ndiag, mk=mk, mon=mon)
 
 
 def seq(ch):
